@@ -217,6 +217,30 @@ class Engine:
                         return self._infer_optional_field(cls, name)
         return None
 
+    def instance_assigned(self, cls, name):
+        """does some method of the class (or a base) assign `self.<name> = ...`?  (cached)"""
+        cache = self.__dict__.setdefault("_inst_assigned", {})
+        key = (cls, name)
+        if key not in cache:
+            found = False
+            for c in self.mro(cls):
+                for qn, fi in self.src.funcs.items():
+                    if not qn.startswith(c + ".") or "::" in qn:
+                        continue
+                    for n in ast.walk(fi.node):
+                        if isinstance(n, (ast.Assign, ast.AugAssign)):
+                            tg = n.targets if isinstance(n, ast.Assign) else [n.target]
+                            if any(isinstance(t, ast.Attribute) and isinstance(t.value, ast.Name) and t.value.id == "self"
+                                   and t.attr == name for t in tg):
+                                found = True
+                                break
+                    if found:
+                        break
+                if found:
+                    break
+            cache[key] = found
+        return cache[key]
+
     def _infer_optional_field(self, cls, name):
         """a field initialised to None: its other type is read off the other assignments `self.<name> = <expr>` in the
         class (arithmetic / len() / int literal -> int; bytes literal or slice of bytes -> bytes; True/False -> bool).
